@@ -149,7 +149,7 @@ Collected(t, ps) ==
 
 -------------------------------------------------------------------------------
 (* filter_lookup_validation.go / filter_node.go validate                                   *)
-DefaultMethods == {"GET", "POST", "PUT", "DELETE", "PATCH"}
+DefaultMethods == {"GET", "POST", "PUT", "DELETE", "PATCH", "HEAD", "OPTIONS", "CONNECT", "TRACE"}
 Supported(f)   == IF f.m = {} THEN DefaultMethods ELSE f.m
 
 \* "this kind of requirement is not configured" as the code sees it: asked of the node-level copy
